@@ -418,7 +418,7 @@ pub fn run(ctx: &'static Ctx) {
             l.fail(ctx, idx, v, || json!({"kind": "spelling", "enum": name, "spelling": s}));
         }
     });
-    if ctx.thorough() {
+    {
         // every pair of single-character substitutions of every spelling (printable ASCII)
         let mut spaces: Vec<(usize, String, u64)> = Vec::new();
         for (i, (_, table)) in STRING_ENUMS.iter().enumerate() {
